@@ -1211,7 +1211,12 @@ def _check_rolling_window_overlap(region, size, shape, spacing):
         dimensions = [region[i * ndims + 1] - region[i * ndims] for i in range(ndims)]
         # The - 1 is because we need to divide by the number of intervals, not
         # the number of nodes.
-        spacing = tuple(dim / (n - 1) for dim, n in zip(dimensions, shape))
+        # A single window along a dimension has no neighbour to overlap with
+        # (avoid dividing by zero)
+        spacing = tuple(
+            dim / (n - 1) if n > 1 else (np.inf if dim > 0 else 0)
+            for dim, n in zip(dimensions, shape)
+        )
     spacing = np.atleast_1d(spacing)
     if np.any(spacing > size):
         warnings.warn(
